@@ -51,3 +51,28 @@ func CheckAndAddVisited(ctx context.Context, current relationtuple.Subject) (con
 
 	return ctx, set.addNoDuplicate(current.UniqueID())
 }
+
+// ForkVisited returns a context that carries a copy of the current visited set
+// (or a fresh one if there is none). Additions made through the returned
+// context are not observed through ctx and vice versa. This is needed for
+// operands of intersections and negations: a subject set that was already
+// visited while evaluating one operand must still be evaluated for the others.
+func ForkVisited(ctx context.Context) context.Context {
+	forked := newStringSet()
+	if set, ok := ctx.Value(visitedMapKey).(*stringSet); ok {
+		set.l.Lock()
+		for k := range set.m {
+			forked.m[k] = struct{}{}
+		}
+		set.l.Unlock()
+	}
+	return context.WithValue(ctx, visitedMapKey, forked)
+}
+
+// AdoptVisited returns ctx with the visited set of from, if from has one.
+func AdoptVisited(ctx, from context.Context) context.Context {
+	if set, ok := from.Value(visitedMapKey).(*stringSet); ok {
+		return context.WithValue(ctx, visitedMapKey, set)
+	}
+	return ctx
+}
